@@ -983,12 +983,22 @@ class DynamicVector : public DynamicVectorBaseTypeDispatcher<T, Alloc, SizeType,
     o.setSize(static_cast<OSizeType>(mySize));
   }
 
+  /// swap2 can exchange the dynamic storages when both vectors use one and each capacity can be stored in the
+  /// size_type of the other vector. Otherwise elements are swapped one by one, which only needs both sizes to fit.
+  template <class VectorType>
+  bool canExchangeDynStorage(VectorType &o) const noexcept {
+    using OSizeType = typename VectorType::size_type;
+    return this->canSwapDynStorage(o) &&
+           static_cast<uintmax_t>(this->capacity()) <= static_cast<uintmax_t>(std::numeric_limits<OSizeType>::max()) &&
+           static_cast<uintmax_t>(o.capacity()) <= static_cast<uintmax_t>(std::numeric_limits<SizeType>::max());
+  }
+
   template <class OAlloc, class OSizeType, bool OWithInlineElems>
   void swap2_impl(DynamicVector<T, OAlloc, OSizeType, OWithInlineElems> &o) {
-    if (this->canSwapDynStorage(o)) {
+    if (this->canExchangeDynStorage(o)) {
       // Both vectors use a dynamic storage. Take the references on their sizes before any modification (which size
-      // word is the 'real' one depends on the capacity for a SmallVector), then exchange capacities first: it throws
-      // before any modification if one of them cannot be stored in the other size_type (sizes are then fine as well).
+      // word is the 'real' one depends on the capacity for a SmallVector), then exchange capacities first
+      // (they fit in the other size_type, so do the sizes).
       SizeType &mySize = this->msize();
       OSizeType &oSize = o.msize();
       swap_sizetype(this->mcapacity(), o.mcapacity());
@@ -1052,7 +1062,7 @@ class DynamicVector : public DynamicVectorBaseTypeDispatcher<T, Alloc, SizeType,
   /// (as the two size types may differ we should use LargestSizeType to avoid overflows)
   template <class VectorType>
   void adjustEachOtherCapacity(VectorType &o) {
-    if (!this->canSwapDynStorage(o)) {
+    if (!this->canExchangeDynStorage(o)) {
       adjustCapacity(o.size());
       o.adjustCapacity(this->size());
     }
